@@ -77,7 +77,14 @@ RULE = ('scripts drawn from the seeded generators of the four components; distin
 CFGS = [[5, 60, 1.2], [5, 60, 1.2], [2, 30, 1.5], [3, 10, 2], [1.5, 20, 1.3], [10, 10, 1.2], [4, 45, 1.1]]
 
 
+E2E_SHARE = 0.06
+
+
 def gen_script(rng, tier):
+    if rng.random() < E2E_SHARE:
+        # the assembled Thrift / ThriftMux clients (component e2e9, monitor Adapter/E2E.lean): closed, then left alone
+        import e2e
+        return dict(e2e.gen_script(rng, tier, 'close'), kind='e2e')
     if rng.random() < MUX_SHARE:
         import c09mux
         return c09mux.gen_script(rng, tier)
@@ -212,6 +219,11 @@ def exhaustive(tier, shard, shards):
 
 
 def shrink(script):
+    if script.get('kind') == 'e2e':
+        import e2e
+        for s in e2e.shrink(script):
+            yield s
+        return
     if script.get('kind') == 'heap':
         import c09heap
         for s in c09heap.shrink(script):
@@ -235,6 +247,9 @@ def shrink(script):
 
 
 def run_script(script):
+    if script.get('kind') == 'e2e':
+        import e2e
+        return e2e.run_script(script, 'e2e9')
     if script.get('kind') == 'heap':
         import c09heap
         return c09heap.run_script(script)
@@ -249,6 +264,8 @@ def run_script(script):
 
 
 def nontrivial(case):
+    if case.get('comp') == 'e2e9':
+        return bool(set(case.get('tags', [])) & {'unreachable', 'conn-killed', 'pre-open', 'after-close-down'})
     if case.get('comp') == 'heap9':
         import c09heap
         return c09heap.nontrivial(case)
